@@ -617,6 +617,12 @@ def _array(ex, args, kwargs, fr):
         out = new_array(ex, (n,), dtype or VDtype("int64"), lambda ix, lo=lo: VInt(lo + z_int(ix[0])))
         ex.st.cell(out).tag = ("range", lo, z3.simplify(z3.If(hi > lo, hi, lo)))
         return out
+    if isinstance(v, VSeq):
+        # a Python sequence of symbolic length whose elements are numbers: a 1-D array of that length
+        probe = v.get(z3.Int("np_array_probe"))
+        if is_num(probe):
+            d = dtype or VDtype("float64" if isinstance(probe, VFloat) else "bool" if isinstance(probe, VBool) else "int64")
+            return new_array(ex, (v.n,), d, lambda ix, v=v, d=d: cast_elem(ex, v.get(z_int(ix[0])), d))
     items = ex.try_list(v)
     if items is not None and items and all(isinstance(x, VStr) for x in items):
         return new_array(ex, (len(items),), VDtype("str"), lambda ix, items=items: _select_any(items, ix[0]))
